@@ -66,7 +66,14 @@ def build_rows(market):
                     c = a = None
                 elif market.get('nan_adj_only') and rng.random() < nan_p:
                     a = None                                  # Adj Close blank on its own
-            rows.append({'date': d.isoformat(), 'open': o, 'close': c, 'adj': a})
+            row = {'date': d.isoformat(), 'open': o, 'close': c, 'adj': a}
+            if rows and market.get('stale_p') and rng.random() < market['stale_p']:
+                # an untraded day: the vendor repeats the previous bar in full (every column, volume included)
+                prev = rows[-1]
+                row = dict(prev, date=d.isoformat(), volume=prev.get('volume', 1000 + len(rows) - 1))
+                if prev['close'] is not None:
+                    price = prev['close']
+            rows.append(row)
         out[sym] = rows
     return out
 
